@@ -45,6 +45,9 @@ HARNESS = {
     'C09': ('harness.gears_h', 'run_C09', 'replay_C09'),
     'C10': ('harness.rel_h', 'run_C10', 'replay_C10'),
     'C20': ('harness.rel_h', 'run_C20', 'replay_C20'),
+    'C18': ('harness.snap_h', 'run_C18', 'replay_C18'),
+    'C07': ('harness.meta_h', 'run_C07', 'replay_C07'),
+    'C04': ('harness.meta_h', 'run_C04', 'replay_C04'),
     'C15': ('harness.ctl_h', 'run_C15', 'replay_C15'),
 }
 
